@@ -320,8 +320,8 @@ example : ((runOps cfg6 (init 3) [.resizeCall 0 2, .resizeInit 0, .resizeLock 0]
 `in_progress_destroy`, then the destroy work frees level 0 and the table -/
 example : ((runOps cfg6 (init 0) [.lazyGrow 0 1 5, .launch 0, .launch 0, .launch 0, .launch 0, .destroy 1, .destroyQueue 1,
       .workerTake, .workerLock, .rz, .workerTake, .workerDestroy]).map fun s =>
-      (s.size, s.target, s.dead, s.bad, s.queue, s.log.reverse)) =
-    some (1, 32, true, false, ([] : List Work), [Ev.free 0, Ev.freeHt]) := by
+      ((s.size, s.target, s.dead, s.bad), (s.queue, s.log.reverse))) =
+    some ((1, 32, true, false), ([], [Ev.free 0, Ev.freeHt])) := by
   decide
 
 /-- Observation outside the claim of C09 (liveness of *automatic* resizing): `__cds_lfht_resize_lazy_launch`
